@@ -13,8 +13,12 @@ pub fn op_alphabet(n: usize) -> Vec<String> {
             a.push(format!("d.{u}.{v}"));
             a.push(format!("q.{u}.{v}"));
             a.push(format!("s.{u}.{v}"));
+            a.push(format!("sd.{u}.{v}"));
+            a.push(format!("sp.{u}.{v}"));
+            a.push(format!("st.{u}.{v}"));
         }
         a.push(format!("x.{u}"));
+        a.push(format!("so.{u}"));
         a.push(format!("gi.{u}"));
         a.push(format!("gr.{u}"));
     }
